@@ -195,6 +195,22 @@ CHECKS['C07'] = dict(
     note=COMMON_NOTE + 'dask fancy-indexing semantics assumed by the N-D model; tuples are accepted by the 2-D path only.',
     ref='§5 C07')
 
+CHECKS['C02'] = dict(
+    technique='Lean 4 theorems over a step-ordered model of write_main_dataset on an abstract HDF5 group (atomicity, validity via the C06 rule set, coordinates via C08) + differential correspondence with retry',
+    text=('Theorems (Usid/Properties/C02.lean): reject_atomic - for EVERY group and argument set, a rejected call returns the '
+          'group exactly as it found it (all checks precede the first creation in the model, which follows the order of '
+          'the source); accept_valid - an accepted call adds a main dataset satisfying every rule of the C06 rule set, '
+          'linked to ancillary pairs covering exactly n positions / m spectroscopic points, and for a side given as a '
+          'dimension list the linked pair is exactly writeIndVal(dims, slow_to_fast); accept_faithful - that pair stores '
+          'the dimensions slowest-first under both flags with label, unit, indices and values of the same dimension on '
+          'each row (C08). Correspondence: real write_main_dataset calls (numpy/dask/empty data, both flags, custom '
+          'prefixes, reuse from same/other file, wrong types, size mismatches, clashing prior names, equal prefixes), '
+          'group dump before/after, corrected retry in the same group; independent oracle validates the written file '
+          '(C06 rules, data equality, coordinates read back with raw h5py).'),
+    note=COMMON_NOTE + 'h5py failures after validation (unknown creation keyword, nested attribute dictionaries) and '
+         'malformed reused ancillaries are outside the model (the property names sizes, clashing names and wrong types).',
+    ref='§5 C02')
+
 REASON_PENDING = 'check not built yet in this round (planned: Lean model + theorems + correspondence, see DESIGN.md §5)'
 
 
